@@ -51,6 +51,13 @@ CHECKS['C20'] = ('proof', 'Declaration/definition decomposition around the same 
                  'kind rendered twice per object and compared with the model; compositions compiled with g++ -fsyntax-only.',
                  'partial: "any composition is accepted by a C++ compiler" is validated by compiling sampled compositions, not proved. trusted: Coq kernel, extraction+driver, harness, g++ 12.', '§5 C20')
 
+CHECKS['C13'] = ('proof', 'On a byte-exact Gallina model of the whole pipeline (configuration objects + Builder.build): every failure is one of the '
+                 'library error types (Internal/TypeError/ValueError outcomes exist in the model and are proved unreachable), a success returns exactly '
+                 'shell.hh, shell.cc and the six stand-alone support files, and success implies encapsulee/port-type validity (Properties/C13.v). '
+                 'Correspondence: valid generated (model, configuration) pairs and every single-fault variation, each built twice, compared byte for byte with the model.',
+                 'partial: the completeness half of "valid iff succeeds" is covered by the correspondence (valid generated inputs must build), not by a theorem. '
+                 'Repaired defects F4, F6, F7, F8. Known finding K5 (recursion limit) probed on every run.', '§5 C13')
+
 NOT_YET = {
 }
 
